@@ -121,12 +121,31 @@ def check_ts(ctx, ts, expected, inst, label, samples_attached_counts):
                               f"sample {s} has prior parameters {mp.prior_params[int(s)].tolist()}", "mixture")
 
 
+def instance_perm(rec):
+    """A renumbering of the non-sample nodes, derived from the instance itself (so that a replay reproduces it):
+    the span tables are about nodes, not about ids, and TSGen numbers nodes by age."""
+    import random
+    rng = random.Random(pc.json_key(rec["trees"]))
+    NS, N = rec["NS"], rec["N"]
+    inner = list(range(NS, N))
+    rng.shuffle(inner)
+    return list(range(NS)) + inner
+
+
 def replay_instance(ctx, rec):
-    ts = rec.get("_ts") or build.forest_ts(rec)
     expected = {}
     for nd in rec["nodes"]:
         expected[nd["u"]] = ({(T, k): F(s) for T, k, s in nd["spans"]}, F(nd["nodespan"]), pc.frac(nd["mean"]),
                              pc.frac(nd["var"]))
+    perm = instance_perm(rec)
+    if perm != list(range(rec["N"])):
+        # second replay with ids that do not follow age (the lesson of seeds C01-b, C04-a, C13-b)
+        inst_p = {"kind": "tlc", "N": rec["N"], "NS": rec["NS"], "L": rec["L"], "time": rec["time"], "trees": rec["trees"],
+                  "muts": [], "treeT": rec["treeT"], "nodes": rec["nodes"], "renumbered": perm}
+        check_ts(ctx, build.forest_ts(rec, perm=perm), {perm[u]: v for u, v in expected.items()}, inst_p, "tlc-renumbered",
+                 rec["treeT"])
+        ctx.count("tlc_instances_replayed_renumbered")
+    ts = rec.get("_ts") or build.forest_ts(rec)
     inst = {"kind": "tlc", "N": rec["N"], "NS": rec["NS"], "L": rec["L"], "time": rec["time"], "trees": rec["trees"],
             "muts": [], "treeT": rec["treeT"], "nodes": rec["nodes"]}
     check_ts(ctx, ts, expected, inst, "tlc", rec["treeT"])
